@@ -274,13 +274,19 @@ def gen_case(rng, i, tier):
     cont = get_path(docs[hd], cpath)
     hk = 'host'
     form = rng.choice(['map-merge', 'map-merge', 'str-merge', 'map-replace', 'str-replace', 'list-merge', 'list-replace'])
-    if form in ('str-merge', 'str-replace') and (cross or any('.' in k for k in tpath)):
+    simple = all(k.isalnum() for k in tpath)
+    if form in ('str-merge', 'str-replace') and ((cross and (not simple or rng.random() < 0.4)) or any('.' in k for k in tpath)):
         form = 'map-' + form.split('-')[1]
     uniq = [d_['id'] for d_ in docs]
     docid = docs[td]['id'] if sum(1 for x in uniq if type(x) is type(docs[td]['id']) and x == docs[td]['id']) == 1 else None
     ref = make_ref(rng, tpath, docs[td]['name'], cross, labels, docid)
     if form.startswith('str'):
-        ref = path_text(tpath) if rng.random() < 0.7 else '[' + ', '.join(tpath) + ']'
+        if cross:
+            # string form of a cross-document reference: "[{name: n1}, a, b]"
+            ref = '[{name: %s}, %s]' % (docs[td]['name'], ', '.join(tpath))
+            labels.add('addr:string-form-cross')
+        else:
+            ref = path_text(tpath) if rng.random() < 0.7 else '[' + ', '.join(tpath) + ']'
         labels.add('addr:string-form')
     broken = None
     r = rng.random()
@@ -295,9 +301,13 @@ def gen_case(rng, i, tier):
     elif r < 0.14 and cross:
         broken = 'no-doc'
         ref = {'$match': {'name': 'nobody'}, '$path': list(tpath)}
+        if form.startswith('str'):
+            ref = '[{name: nobody}, %s]' % ', '.join(tpath)
     elif r < 0.2 and cross and ndocs > 1:
         broken = 'multi-doc'
         ref = {'$match': {}, '$path': list(tpath)}
+        if form.startswith('str'):
+            ref = '[{}, %s]' % ', '.join(tpath)
     labels.add('form:' + form)
     if broken:
         labels.add('broken:' + broken)
